@@ -73,8 +73,16 @@ class IntShift(Unit):
         if self.as_quantity:
             dt = Fraction(1, 250000)           # concrete 250 kHz: keeps (shift*sample_rate) linear
             # unit pair of (shift, sample_rate): "ms*kHz" has scale 1, the others need the product reduced to a pure number
-            self.qu, self.ru = {True: ("ms", "kHz"), "us*kHz": ("us", "kHz"), "s*MHz": ("s", "MHz"), "us*Hz": ("us", "Hz")}[self.as_quantity]
-            sr = {"kHz": 250 * u.kHz, "MHz": 0.25 * u.MHz, "Hz": 250000 * u.Hz}[self.ru]
+            self.qu, self.ru = {True: ("ms", "kHz"), "us*kHz": ("us", "kHz"), "s*MHz": ("s", "MHz"), "us*Hz": ("us", "Hz"),
+                                "s*GHz": ("s", "GHz")}[self.as_quantity]
+            sr = {"kHz": 250 * u.kHz, "MHz": 0.25 * u.MHz, "Hz": 250000 * u.Hz, "GHz": 2**30 * u.Hz}[self.ru]
+            if self.ru == "GHz":
+                # a whole-sample shift is ~1e-9 in the Quantity's own unit: below numpy.allclose's 1e-8, though several samples.
+                # (a rate of 2^30 Hz given in Hz, so that s * dt and (s * dt) * rate are exact in floating point in the concrete
+                #  replays: with the rate in GHz astropy's scale factor 1e9 turns 3 samples into 3.0000000000000004, which the real
+                #  code then rightly treats as a fractional shift - float rounding of the conversion, outside the claim)
+                dt = Fraction(1, 2**30)
+                self._dt_lifted = True
         else:
             dt = S.real("dt")
             S.assume(dt > Fraction(1, 10**9))
@@ -101,11 +109,15 @@ class IntShift(Unit):
         if self.as_quantity:
             # shift given as a time Quantity: s samples = s * 4 us
             qun = {"ms": u.ms, "us": u.us, "s": u.s}[self.qu]
-            f = Fraction(4, 10**6) / Fraction(qun.to(u.s)).limit_denominator(10**9)
+            f = Fraction(dt) / Fraction(qun.to(u.s)).limit_denominator(10**9)
             if S.symbolic:
                 shift = S.quantity((sh * f) if self.shift_shape == () else SymND(sh) * f, qun)
             else:
                 shift = (np.asarray(sh, dtype=float) * float(f)) * qun
+        if getattr(self, "_dt_lifted", False) and S.symbolic:
+            # the code's own dt is the float 1/sample_rate, which the engine lifts by its shortest decimal (not a dyadic rational)
+            from pbsym.core import frac_of_float
+            dt = frac_of_float(2.0**-30)
         return {"sig": sig, "z": z, "shift": shift, "full": full, "dt": dt}
 
     def call(self, a):
@@ -332,6 +344,8 @@ def units(tier):
             us.append(IntShift(N, (2,), (), cplx=True, crop=(N == 2), as_quantity="us*kHz" if N == 2 else "s*MHz"))
         if N == 4:
             us.append(IntShift(N, (), (), cplx=True, crop=True, as_quantity="us*Hz"))
+            us.append(IntShift(N, (), (), cplx=True, crop=False, as_quantity="s*GHz"))
+            us.append(IntShift(N, (2,), (2,), cplx=False, crop=True, as_quantity="s*GHz"))
     if tier == "quick":
         # real-valued data at an odd length (a half-spectrum round trip must not lose the last sample)
         us.append(IntShift(3, (), (), cplx=False, crop=False))
